@@ -316,7 +316,10 @@ func c04Gen(t *rapid.T) c04Case {
 		case "top_set":
 			tm.Key = rapid.SampledFrom([]string{"unsigned", "age_ts", "outlier", "destinations", "event_id", "foo", "origin", "membership", "prev_state", "redacts", "redacts", "sticky", "msc4354_sticky", "depth", "origin_server_ts",
 				// look-alikes of event fields: other letter case, or letters that fold to ASCII (U+017F, U+212A)
-				"\u017fender", "Sender", "state_Key", "state_\u212aey", "Type", "room_ID", "Content", "Redacts", "Depth", "Hashes"}).Draw(t, "tkey")
+				"\u017fender", "Sender", "state_Key", "state_\u212aey", "Type", "room_ID", "Content", "Redacts", "Depth", "Hashes",
+				// ... of EVERY top-level name some version's keep-list or parser knows
+				"Origin", "ORIGIN", "Membership", "Prev_State", "Auth_Events", "Prev_Events", "Origin_Server_TS", "origin_\u017ferver_ts", "Signatures",
+				"Unsigned", "Event_ID", "Sticky", "MSC4354_sticky", "\u017ftate_key", "\u017fignatures", "un\u017figned"}).Draw(t, "tkey")
 			switch tm.Key {
 			case "\u017fender", "Sender":
 				tm.Value = vfBytes(`"@evil:evil.example"`)
@@ -332,6 +335,22 @@ func c04Gen(t *rapid.T) c04Case {
 				tm.Value = vfBytes(`"$x:y"`)
 			case "Depth":
 				tm.Value = vfBytes(`7`)
+			case "Origin", "ORIGIN":
+				tm.Value = vfBytes(`"evil.example"`)
+			case "Membership":
+				tm.Value = vfBytes(`"ban"`)
+			case "Prev_State", "Auth_Events", "Prev_Events":
+				tm.Value = vfBytes(`[]`)
+			case "Origin_Server_TS", "origin_\u017ferver_ts":
+				tm.Value = vfBytes(`12345`)
+			case "Signatures", "\u017fignatures", "Unsigned", "un\u017figned":
+				tm.Value = vfBytes(`{"evil.example":{"ed25519:1":"AAAA"}}`)
+			case "Event_ID":
+				tm.Value = vfBytes(`"$evil:evil.example"`)
+			case "Sticky", "MSC4354_sticky":
+				tm.Value = vfBytes(`{"duration_ms":600000}`)
+			case "\u017ftate_key":
+				tm.Value = vfBytes(`"forged"`)
 			case "sticky", "msc4354_sticky":
 				tm.Value = vfBytes(`{"duration_ms":600000}`)
 			case "redacts":
@@ -389,6 +408,32 @@ func c04EnumEscapedKeys(size, shard, nshards int, emit func(c04Case)) {
 					val = vfBytes(`"evil.example"`)
 				}
 				if key == "unsigned" {
+					// look-alikes of every envelope / keep-list name (other letter case, letters folding to ASCII)
+					for _, base := range []string{"auth_events", "content", "depth", "event_id", "hashes", "membership", "msc4354_sticky", "origin",
+						"origin_server_ts", "prev_events", "prev_state", "redacts", "room_id", "sender", "signatures", "state_key", "sticky", "type", "unsigned"} {
+						alikes := []string{strings.ToUpper(base[:1]) + base[1:], strings.ToUpper(base)}
+						if i := strings.IndexByte(base, 's'); i >= 0 {
+							alikes = append(alikes, base[:i]+"\u017f"+base[i+1:])
+						}
+						if i := strings.IndexByte(base, 'k'); i >= 0 {
+							alikes = append(alikes, base[:i]+"\u212a"+base[i+1:])
+						}
+						for _, ak := range alikes {
+							lv := vfBytes(`"@evil:evil.example"`)
+							switch base {
+							case "depth", "origin_server_ts":
+								lv = vfBytes(`7`)
+							case "content", "hashes", "signatures", "unsigned", "sticky", "msc4354_sticky":
+								lv = vfBytes(`{"duration_ms":600000}`)
+							case "auth_events", "prev_events", "prev_state":
+								lv = vfBytes(`[]`)
+							}
+							if idx%nshards == shard {
+								emit(c04Case{Version: v, Event: ev, Origin: p.Origin, Tampers: []c04Tamper{{Kind: "top_set", Key: ak, Value: lv}}})
+							}
+							idx++
+						}
+					}
 					// duplicates of the envelope fields, in every spelling, with a null or another value
 					for _, dk := range []string{"sender", "type", "room_id", "state_key", "content", "depth", "origin_server_ts", "hashes", "signatures", "redacts"} {
 						for _, mode := range []string{"", "first", "last", "all", "upper"} {
